@@ -43,6 +43,8 @@ pub enum Class {
     HelperLetrec,
     GlobalNestedTupleClosures,
     GlobalNestedRecordClosures,
+    GlobalVariantClosure,
+    MatchBoxPayload,
     // ---- known findings on the pinned tree (rate per dsp call in `rate()`)
     LocalCaptureBound,
     ReturnedBound,
@@ -59,9 +61,13 @@ pub enum Class {
     LocalIfSelectedFn,
     LocalTupleClosure,
     NestedTupleClosuresReturned,
+    AssignGlobalClosure,
+    IfReturnedClosure,
+    ClosureThroughCalls,
+    VariantClosureLocal,
 }
 
-pub const STABLE: [Class; 22] = [
+pub const STABLE: [Class; 24] = [
     Class::LocalNoCapture,
     Class::InplaceCapturing,
     Class::GlobalClosureCalled,
@@ -84,8 +90,10 @@ pub const STABLE: [Class; 22] = [
     Class::HelperLetrec,
     Class::GlobalNestedTupleClosures,
     Class::GlobalNestedRecordClosures,
+    Class::GlobalVariantClosure,
+    Class::MatchBoxPayload,
 ];
-pub const LEAKY: [Class; 15] = [
+pub const LEAKY: [Class; 19] = [
     Class::LocalCaptureBound,
     Class::ReturnedBound,
     Class::ReturnedInplace,
@@ -101,6 +109,10 @@ pub const LEAKY: [Class; 15] = [
     Class::LocalIfSelectedFn,
     Class::LocalTupleClosure,
     Class::NestedTupleClosuresReturned,
+    Class::AssignGlobalClosure,
+    Class::IfReturnedClosure,
+    Class::ClosureThroughCalls,
+    Class::VariantClosureLocal,
 ];
 
 impl Class {
@@ -129,6 +141,12 @@ impl Class {
             Class::GlobalNestedTupleClosures => "closures-in-a-nested-tuple-made-by-main",
             Class::GlobalNestedRecordClosures => "closures-in-a-nested-record-made-by-main",
             Class::NestedTupleClosuresReturned => "closures-in-a-nested-tuple-returned-to-dsp",
+            Class::GlobalVariantClosure => "closure-in-a-variant-made-by-main",
+            Class::MatchBoxPayload => "match-projecting-a-boxed-payload-of-a-global-tree",
+            Class::AssignGlobalClosure => "closure-assigned-to-a-global-from-dsp",
+            Class::IfReturnedClosure => "lambda-selected-by-if-bound-in-dsp",
+            Class::ClosureThroughCalls => "lambda-passed-through-two-calls",
+            Class::VariantClosureLocal => "closure-in-a-variant-built-in-dsp",
             Class::LocalIfSelectedFn => "function-selected-by-if-bound-in-dsp",
             Class::LocalTupleClosure => "closure-inside-a-tuple-bound-in-dsp",
             Class::LocalCaptureBound => "capturing-local-closure-bound",
@@ -152,6 +170,8 @@ impl Class {
             Class::LocalCaptureBound | Class::LocalIfSelectedFn => (1, 0),
             Class::LocalTupleClosure => (1, 1),
             Class::NestedTupleClosuresReturned => (2, 2),
+            Class::AssignGlobalClosure | Class::ClosureThroughCalls | Class::VariantClosureLocal => (1, 1),
+            Class::IfReturnedClosure => (1, 0),
             Class::ReturnedBound
             | Class::ReturnedInplace
             | Class::PassedLambda
@@ -303,6 +323,42 @@ impl Inst {
             Class::InplaceCallsGlobalClosure => (
                 format!("fn mk{i}(q){{\n  |x| x * q\n}}\nlet g{i} = mk{i}({k})\n"),
                 format!("  let r{i} = (|y| g{i}(y) + 1.0)(now);\n"),
+                format!("r{i}"),
+            ),
+            Class::GlobalVariantClosure => (
+                format!(
+                    "type Op{i} = Gain{i}(float) | Shape{i}((float)->float)\nfn run{i}(o:Op{i}, x:float) -> float {{\n  match o {{\n    Gain{i}(g) => x * g,\n    Shape{i}(f) => f(x)\n  }}\n}}\nlet op{i} = Shape{i}(|x| x + {k})\n"
+                ),
+                format!("  let r{i} = run{i}(op{i}, now);\n"),
+                format!("r{i}"),
+            ),
+            Class::MatchBoxPayload => (
+                format!(
+                    "type rec Tr{i} = Lf{i}(float) | Nd{i}(Tr{i}, Tr{i})\nfn leftmost{i}(t: Tr{i}) -> float {{\n  match t {{\n    Lf{i}(v) => v,\n    Nd{i}(a, b) => leftmost{i}(a)\n  }}\n}}\nlet tr{i}m = Nd{i}(Nd{i}(Lf{i}({k}), Lf{i}(2.0)), Lf{i}(3.0))\n"
+                ),
+                format!("  let r{i} = leftmost{i}(tr{i}m) + now;\n"),
+                format!("r{i}"),
+            ),
+            Class::AssignGlobalClosure => (
+                format!("fn mka{i}(q){{\n  |x| x * q\n}}\nlet ga{i} = mka{i}(1.0)\n"),
+                format!("  ga{i} = mka{i}(now + {k});\n  let r{i} = ga{i}(2.0);\n"),
+                format!("r{i}"),
+            ),
+            Class::IfReturnedClosure => (
+                String::new(),
+                format!("  let f{i} = if (now > {k}) {{ |x| x + 1.0 }} else {{ |x| x * 2.0 }};\n  let r{i} = f{i}(now);\n"),
+                format!("r{i}"),
+            ),
+            Class::ClosureThroughCalls => (
+                format!("fn apa{i}(f, x){{\n  f(x)\n}}\nfn apb{i}(f, x){{\n  apa{i}(f, x)\n}}\n"),
+                format!("  let r{i} = apb{i}(|x| x + {k}, now);\n"),
+                format!("r{i}"),
+            ),
+            Class::VariantClosureLocal => (
+                format!(
+                    "type Ov{i} = Gv{i}(float) | Sv{i}((float)->float)\nfn runv{i}(o:Ov{i}, x:float) -> float {{\n  match o {{\n    Gv{i}(g) => x * g,\n    Sv{i}(f) => f(x)\n  }}\n}}\n"
+                ),
+                format!("  let r{i} = runv{i}(Gv{i}({k}), now) + runv{i}(Sv{i}(|x| x + 1.0), now);\n"),
                 format!("r{i}"),
             ),
             Class::LocalLetrec => (
